@@ -157,6 +157,9 @@ type vfWorld struct {
 	stopOnViolation bool
 	loginAttempts   []time.Time
 
+	groupChanged  map[string]time.Time
+	groupSrvDownSince time.Time
+	groupSrvUpSince   time.Time
 	waChallenges  []string
 	pendingDBFault  int
 	armedForStep    bool
